@@ -140,7 +140,7 @@ Muts(k) == CASE k = "magic" -> Trunc \cup {"flipBit"}
              [] k = "bytes" -> Trunc \cup {"flipBit", "empty", "short1", "splice", "long", "nul"}
              [] k = "nul" -> Trunc \cup {"flipBit", "empty", "short1", "noNul", "splice", "long", "nul"}
              [] k = "col" -> Trunc \cup {"flipBit", "empty", "short1", "short2", "unknownLetter", "splice", "long", "nul"}
-             [] k = "num" -> Trunc \cup {"empty", "badDigit", "hugeNum", "negNum", "short1", "long"}
+             [] k = "num" -> Trunc \cup {"empty", "badDigit", "hugeNum", "negNum", "zeroNum", "plus1Num", "minus1Num", "short1", "long"}
              [] k = "sep" -> {"truncBefore", "cutBefore", "dropSep", "dupSep"}
              [] k = "tag" -> Trunc \cup {"flipBit", "empty", "short1", "unknownLetter", "long", "nul", "asZ", "asB"}
 CasesOf(d) == UNION {{[dec |-> d, field |-> f, inst |-> n, mut |-> m] : n \in Inst, m \in Muts(Schema[d][f])} : f \in DOMAIN Schema[d]}
